@@ -150,8 +150,13 @@ func Worker(o Opts, from, stride int, dumpHashes bool) {
 				break
 			}
 			seed := RunSeed(o.Seed, o.Prop, idx)
-			sc := p.Generate(NewRand(seed), o.Tier)
+			sc, gv := SafeGenerate(p, NewRand(seed), o.Tier)
 			sc.Prop, sc.Seed, sc.Tier = o.Prop, seed, o.Tier
+			if gv != nil {
+				rep.Runs++
+				rep.Violation = &FoundViolation{From: idx, Stride: 1, Idx: idx, Scenario: sc, V: *gv}
+				break
+			}
 			out := SafeExecute(p, sc)
 			rep.Runs++
 			rep.SimSteps += out.SimSteps
@@ -247,8 +252,13 @@ func Replay(path, knownPath string) int {
 	if h := rf.History; h != nil && h.Stride > 0 {
 		for idx := h.From; idx <= h.Upto; idx += h.Stride {
 			seed := RunSeed(rf.Seed, rf.Property, idx)
-			sc := p.Generate(NewRand(seed), rf.Tier)
+			sc, gv := SafeGenerate(p, NewRand(seed), rf.Tier)
 			sc.Prop, sc.Seed, sc.Tier = rf.Property, seed, rf.Tier
+			if gv != nil {
+				out = NewOutcome()
+				out.Violation = gv
+				break
+			}
 			out = SafeExecute(p, sc)
 			Resolve(rf.Property, out, open)
 			if out.Violation != nil && idx != h.Upto {
@@ -444,6 +454,27 @@ func Batch(o Opts) int {
 		LoadSites()
 		InstallClock()
 		fmt.Printf("qsim: run %d failed oracle %s: %s\n", viol.Idx, viol.V.Oracle, viol.V.Msg)
+		if viol.V.Oracle == "panic-during-generation" {
+			rf := ReplayFile{History: &History{From: viol.Idx, Stride: 1, Upto: viol.Idx}, Property: o.Prop, Seed: o.Seed, RunIndex: viol.Idx,
+				Tier: o.Tier, Oracle: viol.V.Oracle, Message: viol.V.Msg, Scenario: viol.Scenario}
+			os.MkdirAll(o.Replays, 0o755)
+			replayPath = filepath.Join(o.Replays, fmt.Sprintf("%s-%d-%d.json", o.Prop, o.Seed, viol.Idx))
+			b, _ := json.MarshalIndent(&rf, "", " ")
+			if err := os.WriteFile(replayPath, b, 0o644); err != nil {
+				fmt.Fprintln(os.Stderr, "runner: write replay:", err)
+				return 2
+			}
+			cmd := exec.Command(o.Self, "-replay", replayPath, "-known", o.Known)
+			cmd.Env = os.Environ()
+			outb, _ := cmd.CombinedOutput()
+			if !strings.Contains(string(outb), "VIOLATION property=") {
+				fmt.Fprintf(os.Stderr, "runner: the generation failure of run %d does not reproduce in a fresh process: determinism trouble\n%s\n", viol.Idx, outb)
+				return 2
+			}
+			fmt.Printf("qsim: replay (regenerating run %d) confirmed in a fresh process\n", viol.Idx)
+			fmt.Printf("VIOLATION property=%s replay=%s\n", o.Prop, replayPath)
+			return 1
+		}
 		min, mout, tried := Minimise(p, viol.Scenario, viol.V.Oracle, open, 400, 60*time.Second)
 		msg, lh := viol.V.Msg, uint64(0)
 		if mout != nil && mout.Violation != nil {
@@ -605,8 +636,12 @@ func DumpHashes(o Opts, n int) {
 	defer w.Flush()
 	for idx := 0; idx < n; idx++ {
 		seed := RunSeed(o.Seed, o.Prop, idx)
-		sc := p.Generate(NewRand(seed), o.Tier)
+		sc, gv := SafeGenerate(p, NewRand(seed), o.Tier)
 		sc.Prop, sc.Seed, sc.Tier = o.Prop, seed, o.Tier
+		if gv != nil {
+			fmt.Fprintf(w, "%d generation-failed %s\n", idx, gv.Msg)
+			continue
+		}
 		b, _ := json.Marshal(sc)
 		out := SafeExecute(p, sc)
 		v := ""
